@@ -6,7 +6,8 @@
     model's rendering of unbounded recursion (stack overflow). *)
 From Coq Require Import List NArith String.
 From V Require Import Base.Util Base.Result Model.Registry Model.Format Model.Describe
-  Proofs.FormatProofs Proofs.DescribeProofs Proofs.DescribeExpand.
+  Model.DescribeSpec Proofs.FormatProofs Proofs.DescribeProofs Proofs.DescribeExpand
+  Proofs.DescribeLockstep.
 Import ListNotations.
 
 (** *** Termination and success.
@@ -113,24 +114,36 @@ Theorem C13_unnamed_replay :
 Proof. exact dresolve_unnamed_replay. Qed.
 Print Assumptions C13_unnamed_replay.
 
-(** *** NOT proved (validated on every observed text by Corr/RunC13.v, never assumed):
+(** *** Lockstep reading.  [spec_tree] (Model/DescribeSpec.v) is a reader of
+    the REGISTRY written independently of the string functions of the model:
+    it builds a description tree -- field names and order, variant names and
+    order (field-less variants: the name only), primitive names, array
+    lengths, tuple arity (one-element tuples keep the comma), Box<..> iff the
+    recorded type name contains "Box<", Compact<..>, Vec<..>,
+    BitSequence(order, store); a struct/enum already started is a reference
+    by name and generic arguments ([_] for skipped parameters); a completed
+    unnamed id yields the same subtree again.  [tokens] reads a TEXT as words
+    and punctuation.  Theorem: the text of the model, tokenized, is exactly
+    the atom sequence of that tree -- for every registry whose identifiers are
+    words ([words_okb]) and whose paths sit on structs/enums only
+    ([paths_only_on_items]; both evaluated on every generated case), and every
+    id on which the description succeeds (with C13_total: every well-formed
+    registry and id).  The same check is run on the OBSERVED unformatted and
+    formatted texts as [prop_lockstep]. *)
+Theorem C13_lockstep :
+  forall (r : registry) (id : N) (s : string),
+    words_okb r = true -> paths_only_on_items r = true ->
+    describe r id = Ok s ->
+    exists (tr : dtree) (st : sstate),
+      spec_tree r (name_fuel r) (desc_fuel r) ([], []) id = Some (tr, st) /\
+      tokens s = atoms tr.
+Proof. exact describe_lockstep. Qed.
+Print Assumptions C13_lockstep.
 
-    C13_lockstep (full statement):
-      forall r id s, wf_descb r = true -> words_okb r = true -> paths_only_on_items r = true ->
-        id < length r -> describe r id = Ok s ->
-        exists tr st, spec_tree r (S (length r)) (S (length r * S (length r))) ([], []) id = Some (tr, st)
-                      /\ tokens s = atoms tr
-    where [spec_tree] (Corr/RunC13.v) is the independently written reader of
-    the registry: field names and order, variant names and order (field-less
-    variants: the name only), primitive names, array lengths, tuple arity
-    (one-element tuples keep the comma), Box<..> iff the recorded type name
-    contains "Box<", Compact<..>, Vec<..>, BitSequence(order, store); a
-    completed unnamed id yields the same subtree again.  The three one-step
-    theorems above are the policy half of it; the missing half is the
-    tokenizer/printer inversion [tokens (a ++ b)] for the literal punctuation.
-    Run-time check: [prop_lockstep] (formatted and unformatted text);
-    [prop_expanded] checks the token reading of C13_expanded_at_least_once
-    below on the OBSERVED text. *)
+(** Not proved: that the FORMATTED text has the same tokens (it has the same
+    non-whitespace characters by C13_format_ws; that no word is split needs the
+    formatter's "whitespace only next to brackets and commas" on code points).
+    Checked at run time by [prop_lockstep] on every observed formatted text. *)
 
 (** *** Every type reachable from the id through fields, variants' fields and
     element types -- in particular every struct and enum -- is written out in
